@@ -149,8 +149,8 @@ func (r *RecvC[T]) rset(v reflect.Value, ok bool) {
 		r.V, _ = v.Interface().(T)
 	}
 }
-func (s *SendC[T]) sel() selCase   { return selCase{ch: s.ch.core(), send: true, val: s.v} }
-func (s *SendC[T]) set(any, bool)  {}
+func (s *SendC[T]) sel() selCase  { return selCase{ch: s.ch.core(), send: true, val: s.v} }
+func (s *SendC[T]) set(any, bool) {}
 func (s *SendC[T]) rsc() reflect.SelectCase {
 	return reflect.SelectCase{Dir: reflect.SelectSend, Chan: reflect.ValueOf(s.ch.wch()), Send: reflect.ValueOf(&s.v).Elem()}
 }
